@@ -248,6 +248,9 @@ fn max_seq_tail(b: &[u8], emitter: &str) -> i64 {
 }
 
 pub fn run(a: &Args) -> Option<Report> {
+    if a.leg == "vanish" {
+        return Some(run_vanish(a));
+    }
     if a.leg == "stall" {
         return Some(run_stall(a));
     }
@@ -696,6 +699,201 @@ fn run_stall(a: &Args) -> Report {
         rep.case(hcase, true);
         if rep.want_sample() {
             rep.sample(jo! {"scenario" => desc, "reader_bytes" => reader.buf.lock().unwrap().len(), "stalled_client_bytes" => staller.buf.lock().unwrap().len()});
+        }
+    }
+    rep
+}
+
+/// Streaming reader for the vanish leg: deframes and decodes as bytes arrive, keeps only the per-stream verdict
+/// (first / last sequence number, first gap, first decoding error) instead of the capture.
+#[derive(Default, Clone, Debug)]
+struct SeqStream {
+    first: i64,
+    last: i64,
+    frames: u64,
+    gap: Option<(i64, i64)>,
+    backwards: Option<(i64, i64)>,
+    error: Option<String>,
+}
+
+fn spawn_seq_reader(addr: SocketAddr, stop: Arc<AtomicBool>) -> Option<(Arc<Mutex<SeqStream>>, std::thread::JoinHandle<()>)> {
+    let mut stream = TcpStream::connect(addr).ok()?;
+    stream.set_read_timeout(Some(Duration::from_millis(20))).ok();
+    let st = Arc::new(Mutex::new(SeqStream { first: -1, last: -1, ..Default::default() }));
+    let st2 = st.clone();
+    let h = std::thread::spawn(move || {
+        let mut pend: Vec<u8> = Vec::new();
+        let mut tmp = vec![0u8; 1 << 16];
+        loop {
+            if stop.load(Ordering::SeqCst) {
+                return;
+            }
+            match stream.read(&mut tmp) {
+                Ok(0) => return,
+                Ok(n) => pend.extend_from_slice(&tmp[..n]),
+                Err(e) if e.kind() == std::io::ErrorKind::WouldBlock || e.kind() == std::io::ErrorKind::TimedOut => continue,
+                Err(_) => return,
+            }
+            let mut off = 0usize;
+            loop {
+                let mut j = off;
+                let n = match varint(&pend, &mut j) {
+                    Some(n) if j + n as usize <= pend.len() => n as usize,
+                    _ => break,
+                };
+                let body = &pend[j..j + n];
+                let mut g = st2.lock().unwrap();
+                match decode_event(body) {
+                    Err(e) => {
+                        if g.error.is_none() {
+                            g.error = Some(e);
+                        }
+                    }
+                    Ok(Frame::Metric { labels, .. }) => {
+                        let seq: i64 = labels.get("seq").and_then(|x| x.parse().ok()).unwrap_or(-1);
+                        g.frames += 1;
+                        if g.first < 0 {
+                            g.first = seq;
+                        } else if seq <= g.last {
+                            if g.backwards.is_none() {
+                                g.backwards = Some((g.last, seq));
+                            }
+                        } else if seq != g.last + 1 && g.gap.is_none() {
+                            g.gap = Some((g.last + 1, seq));
+                        }
+                        g.last = seq;
+                    }
+                    Ok(_) => {}
+                }
+                drop(g);
+                off = j + n;
+            }
+            pend.drain(..off);
+        }
+    });
+    Some((st, h))
+}
+
+/// A client that has let a backlog build up in the exporter (it stopped reading until its socket filled) goes away
+/// with a reset while metrics keep flowing: the clients that are reading must still receive every metric.
+/// `buffer_size(None)`, so nothing may be discarded on the way to the transport.
+fn run_vanish(a: &Args) -> Report {
+    let mut rep = Report::new("C11", &a.leg, a.seed);
+    rt::quiet_panics();
+    let mut r = Rng::new(a.shard_seed());
+    let scenarios = a.budget(2, 40);
+    for sc in 0..scenarios {
+        let port = {
+            let l = TcpListener::bind("127.0.0.1:0").unwrap();
+            l.local_addr().unwrap().port()
+        };
+        let addr: SocketAddr = format!("127.0.0.1:{}", port).parse().unwrap();
+        let rec = match TcpBuilder::new().listen_address(addr).buffer_size(None).build() {
+            Ok(r) => Arc::new(r),
+            Err(e) => {
+                rep.inconclusive(format!("build failed: {:?}", e));
+                continue;
+            }
+        };
+        rec.describe_counter(KeyName::from("m"), None, SharedString::from("x"));
+        std::thread::sleep(Duration::from_millis(20));
+        let nreaders = 3 + r.usize(3);
+        let stop = Arc::new(AtomicBool::new(false));
+        let mut readers = Vec::new();
+        for _ in 0..nreaders {
+            match spawn_seq_reader(addr, stop.clone()) {
+                Some(x) => readers.push(x),
+                None => rep.inconclusive("could not connect"),
+            }
+        }
+        if readers.len() != nreaders {
+            stop.store(true, Ordering::SeqCst);
+            continue;
+        }
+        std::thread::sleep(Duration::from_millis(50));
+        let (pad_len, gap_us) = *r.pick(&[(2usize << 10, 50u64), (8 << 10, 200), (32 << 10, 800), (8 << 10, 400)]);
+        let emitted = Arc::new(std::sync::atomic::AtomicI64::new(-1));
+        let emit_stop = Arc::new(AtomicBool::new(false));
+        let emitter = {
+            let (rec, emitted, emit_stop) = (rec.clone(), emitted.clone(), emit_stop.clone());
+            std::thread::spawn(move || {
+                let pad: String = std::iter::repeat('p').take(pad_len).collect();
+                let mut seq = 0i64;
+                while !emit_stop.load(Ordering::SeqCst) {
+                    let key = Key::from_parts("m", vec![Label::new("emitter", "0"), Label::new("seq", seq.to_string()), Label::new("pad", pad.clone())]);
+                    rec.register_counter(&key, &MD).increment(seq as u64);
+                    emitted.store(seq, Ordering::SeqCst);
+                    seq += 1;
+                    let t = Instant::now();
+                    while t.elapsed() < Duration::from_micros(gap_us) {
+                        std::hint::spin_loop();
+                    }
+                }
+            })
+        };
+        let rounds = if a.thorough() { 40 } else { 10 };
+        let mut vanished = 0u64;
+        for _ in 0..rounds {
+            // transient client: connect, read until the metadata and a few metrics arrived, stop reading, vanish
+            let mut tc = match TcpStream::connect(addr) {
+                Ok(s) => s,
+                Err(_) => continue,
+            };
+            tc.set_read_timeout(Some(Duration::from_millis(50))).ok();
+            unsafe {
+                use std::os::fd::AsRawFd;
+                let sz: libc::c_int = 4096;
+                libc::setsockopt(tc.as_raw_fd(), libc::SOL_SOCKET, libc::SO_RCVBUF, &sz as *const _ as *const libc::c_void, std::mem::size_of::<libc::c_int>() as u32);
+            }
+            let mut tmp = [0u8; 4096];
+            let _ = tc.read(&mut tmp);
+            let stall_ms = *r.pick(&[100u64, 200, 300]);
+            std::thread::sleep(Duration::from_millis(stall_ms));
+            unsafe {
+                use std::os::fd::AsRawFd;
+                let l = libc::linger { l_onoff: 1, l_linger: 0 };
+                libc::setsockopt(tc.as_raw_fd(), libc::SOL_SOCKET, libc::SO_LINGER, &l as *const _ as *const libc::c_void, std::mem::size_of::<libc::linger>() as u32);
+            }
+            drop(tc);
+            vanished += 1;
+            std::thread::sleep(Duration::from_millis(20));
+        }
+        emit_stop.store(true, Ordering::SeqCst);
+        let _ = emitter.join();
+        let total = emitted.load(Ordering::SeqCst);
+        // bounded progress: the readers catch up with everything that was emitted
+        let t = Instant::now();
+        let mut caught_up = false;
+        while t.elapsed() < Duration::from_secs(20) {
+            if readers.iter().all(|(st, _)| st.lock().unwrap().last >= total) {
+                caught_up = true;
+                break;
+            }
+            std::thread::sleep(Duration::from_millis(5));
+        }
+        stop.store(true, Ordering::SeqCst);
+        let desc = jo! {"readers" => nreaders, "label_bytes" => pad_len, "emission_gap_us" => gap_us, "metrics_emitted" => total + 1, "backed_up_clients_reset" => vanished};
+        let mut hcase = mix(sc, total as u64);
+        for (i, (st, h)) in readers.into_iter().enumerate() {
+            let _ = h.join();
+            let g = st.lock().unwrap().clone();
+            hcase = mix(hcase, g.frames);
+            if let Some(e) = &g.error {
+                rep.violation("C11:torn-or-corrupt-frame", jo! {"what" => "a reading client's stream stopped being whole Event frames while a backed-up peer was reset", "error" => e.clone(), "reader" => i, "scenario" => desc.clone()});
+            } else if let Some((exp, got)) = g.gap {
+                rep.violation("C11:gap-in-reading-client-stream:backed-up-peer-reset", jo! {"what" => "a client that was reading all along missed metrics (later ones arrived) after another client, for which the exporter held a backlog, was reset", "reader" => i, "expected_seq" => exp, "next_received" => got, "scenario" => desc.clone()});
+            } else if let Some((last, got)) = g.backwards {
+                rep.violation("C11:emission-order-violated", jo! {"what" => "sequence went backwards or repeated", "reader" => i, "after" => last, "got" => got, "scenario" => desc.clone()});
+            }
+            rep.count("frames_received:reader", g.frames);
+        }
+        if !caught_up {
+            rep.inconclusive("readers did not catch up with the emitter within 20 s");
+        }
+        rep.count("backed_up_clients_reset", vanished);
+        rep.case(hcase, vanished > 0 && total > 100);
+        if rep.want_sample() {
+            rep.sample(jo! {"vanish" => true, "scenario" => desc});
         }
     }
     rep
